@@ -9,6 +9,7 @@ import (
 	"os"
 	"path/filepath"
 	"runtime/debug"
+	"strings"
 	"syscall"
 )
 
@@ -147,7 +148,16 @@ func WorkerMain(args []string) int {
 		var res Result
 		panicked, pv := Try(func() { res = ph.Run(env, idx) })
 		if panicked {
-			res = Result{Verdict: Inconclusive, Msg: "harness-level panic escaped the oracle: " + pv, Class: "harness-panic"}
+			if where := libraryPanic(pv); where != "" {
+				// the panic was raised inside go-slug itself, in a call the
+				// oracle did not expect to panic: whatever the property says
+				// that call delivers, it did not deliver it
+				res = Result{Verdict: Violated, Finding: "library-panic", Class: "library-panic", NonTrivial: true,
+					Msg:  "go-slug panicked in " + where + " during a call whose result the oracle was about to judge: " + firstLines(pv, 12),
+					Case: map[string]interface{}{"phase": ph.Name, "idx": idx}}
+			} else {
+				res = Result{Verdict: Inconclusive, Msg: "harness-level panic escaped the oracle: " + pv, Class: "harness-panic"}
+			}
 		}
 		ev := int64(res.Evals)
 		if ev == 0 {
@@ -209,4 +219,42 @@ func WorkerMain(args []string) int {
 		os.RemoveAll(scratch)
 	}
 	return 0
+}
+
+// libraryPanic inspects the stack of a recovered panic: if the frame that
+// raised it (the first non-runtime frame below panic) belongs to go-slug, it
+// returns that function's name.
+func libraryPanic(stack string) string {
+	lines := strings.Split(stack, "\n")
+	seen := false
+	for _, l := range lines {
+		if strings.HasPrefix(l, "\t") {
+			continue
+		}
+		if !seen {
+			if strings.HasPrefix(l, "panic(") {
+				seen = true
+			}
+			continue
+		}
+		if strings.HasPrefix(l, "runtime.") || strings.HasPrefix(l, "runtime/") {
+			continue
+		}
+		if strings.HasPrefix(l, "github.com/hashicorp/go-slug") {
+			if i := strings.Index(l, "("); i > 0 {
+				return l[:i]
+			}
+			return l
+		}
+		return ""
+	}
+	return ""
+}
+
+func firstLines(s string, n int) string {
+	ls := strings.Split(s, "\n")
+	if len(ls) > n {
+		ls = ls[:n]
+	}
+	return strings.Join(ls, "\n")
 }
